@@ -126,7 +126,7 @@ pub fn base_weights(prop: &str) -> Vec<u32> {
         "C16" => {
             set(stat);
             set(refresh);
-            set(&[(Rekey, 4), (EncryptRepeat, 6), (Reload, 2), (Recaps, 2), (Keygen, 5)]);
+            set(&[(Rekey, 5), (EncryptRepeat, 6), (Reload, 2), (Recaps, 2), (Keygen, 5), (DisableAttr, 2), (Update, 3), (Prune, 1)]);
         }
         "C17" => {
             set(&[(Keygen, 6), (Publish, 1), (Deliver, 6), (Encrypt, 2), (Read, 2), (RequestRefresh, 6), (Rekey, 2), (Reload, 3), (Backup, 2), (Restore, 2), (ForgedRefresh, 2)]);
@@ -807,7 +807,7 @@ impl Gen {
         };
         const BOUNDARY: &[u64] = &[0, 1, 2, 127, 128, 255, 16383, 16384, 1 << 31, (1 << 32) - 1, 1 << 32, 1 << 45, 1 << 62, 1 << 63, u64::MAX];
         let mutation = match rng.below(11) {
-            10 => HostileMut::Empty { which: rng.below(4) as u8 },
+            10 => HostileMut::Empty { which: rng.below(7) as u8 },
             0 => HostileMut::None,
             1 | 2 => HostileMut::Truncate { len: rng.below(6000) },
             3 => HostileMut::SetByte { pos: rng.below(6000), val: *rng.pick(&[0u8, 1, 2, 0x7f, 0x80, 0xff, 0xfe]) },
